@@ -28,7 +28,7 @@ pub enum STop
 {
     Acts(Vec<SAct>), AppReactor(usize, Vec<STrig>), Update, WDespawn(Ref), WDespawnRec(Ref), WRemove(Ref, usize), WInsertRaw(Ref, usize, u32), WSetParent(Ref, Ref),
     Gc, Poll, FrameEnd, WSysEvent(Ref, usize, u32), WBroadcast(usize, u32), WEntityEvent(Ref, usize, u32),
-    SigPrepare(Ref), SigClone(usize), SigDrop(usize), SigThreads(usize, usize),
+    SigPrepare(Ref), SigClone(usize), SigDrop(usize), SigDropRace(usize), SigThreads(usize, usize),
 }
 
 #[derive(Clone, Debug, Default)]
@@ -129,6 +129,7 @@ fn parse_top(t: &[&str]) -> Option<STop>
         ["sigprepare", r] => STop::SigPrepare(parse_ref(r)?),
         ["sigclone", a] => STop::SigClone(parse_idx('a', a)?),
         ["sigdrop", a] => STop::SigDrop(parse_idx('a', a)?),
+        ["sigdroprace", a] => STop::SigDropRace(parse_idx('a', a)?),
         ["sigthreads", a, n] => STop::SigThreads(parse_idx('a', a)?, num(n)?),
         _ => return None,
     })
